@@ -2,6 +2,8 @@ import CanVerif.Model.DbcText
 import CanVerif.Spec.DbcRT
 import CanVerif.Proofs.DbcText
 import CanVerif.Proofs.DbcLex
+import CanVerif.Props.C04
+import CanVerif.Proofs.DecDiv
 /-!
 # C15 - readers recover what a well-formed file describes, whoever wrote it: the lexical freedom of DBC statements and
 the renderings of a number
@@ -59,6 +61,19 @@ theorem bo_lex_roundtrip (lx : BoLex) (b : BoLine) (h : wfBo b = true) (hl : boL
 theorem renderSg_is_lex (s : SgLine) :
     renderSg s = renderSgLex {} ⟨formatFloat s.factor, formatFloat s.offset, formatFloat s.min, formatFloat s.max⟩ s := by
   exact renderSg_lex_default s
+
+/-! ## ARXML: rational coefficients with a denominator (`decode_compu_method`: factor = n₁ / d, offset = n₀ / d in `Decimal`) -/
+
+/-- When the quotient is a finite decimal of at most 28 digits (`a · 10^j = b · q`), `Decimal` division is exact:
+`a / b` has exactly the value `±q · 10^(a.exp − b.exp − j)`.  So a COMPU-RATIONAL-COEFFS entry with numerators (n₀, n₁) and a
+denominator d ≠ 1 (2, 4, 5, 8, 10, 0.5 …) is read as the same factor and offset as the equivalent entry with denominator 1. -/
+theorem compu_rational_exact (a b : Dec) (q j : Nat) (hb : b.coeff ≠ 0)
+    (ha : nd a.coeff ≤ PREC) (hbn : nd b.coeff ≤ PREC) (hq : a.coeff * 10 ^ j = b.coeff * q) (hqn : nd q ≤ PREC) :
+    Spec.Ex.eqv (C04.exOf (Dec.div a b)) ⟨(if a.neg != b.neg then -(q : Int) else (q : Int)), a.exp - b.exp - (j : Int)⟩ = true := by
+  exact div_exact_eqv a b q j hb ha hq hqn
+
+example : Dec.div ⟨true, 80, 0⟩ ⟨false, 2, 0⟩ = ⟨true, 40, 0⟩ := by decide +kernel
+example : Dec.div ⟨false, 1, 0⟩ ⟨false, 4, 0⟩ = ⟨false, 25, -2⟩ := by decide +kernel
 
 /-! ## non-vacuity -/
 
